@@ -37,7 +37,7 @@ ASSUMPTIONS = ['world-coordinate input values are read from glue (C15 is an inpu
                'views are slice tuples / integers (C04 covers the view domain)', 'sampling, not proof']
 PROBES = ['binary_tree', 'user_function', 'two_input_function', 'parsed_text', 'derived_of_derived', 'pixel_input', 'world_input', 'cascade_removed_ge_2',
           'compare_after_update', 'compare_after_reorder', 'compare_after_update_id', 'view_compare', 'in_collection', 'nan_propagated',
-          'link_object_reused']
+          'link_object_reused', 'ill_conditioned_elements_skipped']
 
 WEIGHTS = {'add_comp': 2, 'add_binary': 5, 'add_fn': 3, 'add_parsed': 3, 'remove': 2, 'update_id': 1, 'upd': 3, 'reorder': 1.5, 'compare': 5}
 OPS = {'+': operator.add, '-': operator.sub, '*': operator.mul, '/': operator.truediv, '**': operator.pow}
@@ -102,6 +102,7 @@ class Model(object):
         self.trees = {}     # id(cid) -> tree with ['ref', cid] leaves
         self.kinds = {}     # id(cid) -> definition kind
         self.age = {}
+        self.unstable = []  # per evaluation: boolean arrays marking ill-conditioned elements
         self.links = {}     # id(cid) -> the link object that defines it
         self.orphan = set()
         self.keep = []      # strong references: the tables above are keyed by id(), which must never be reused
@@ -161,7 +162,21 @@ class Model(object):
             return a if view is None else a[view]
         if k in OPS:
             with np.errstate(all='ignore'):
-                return OPS[k](self.evaluate(d, t[1], view, mags), self.evaluate(d, t[2], view, mags))
+                left = self.evaluate(d, t[1], view, mags)
+                if k == '/' and mags is not None:
+                    # a denominator that cancels to (almost) nothing turns a last-bit difference into inf vs. a huge number:
+                    # such elements are ill-conditioned and not compared
+                    sub = []
+                    right = self.evaluate(d, t[2], view, sub)
+                    scale = 0.0
+                    for mg in sub:
+                        scale = np.maximum(scale, mg)
+                    a = np.abs(np.asarray(right, dtype=float))
+                    self.unstable.append(np.where(np.isfinite(a), a, np.inf) <= 1e-9 * scale)
+                    mags.extend(sub)
+                else:
+                    right = self.evaluate(d, t[2], view, mags)
+                return OPS[k](left, right)
         if k == 'fn':
             args = [np.asarray(self.evaluate(d, x, view, mags)) for x in t[2]]
             f = LF.ONE[t[1]][0] if t[1] in LF.ONE else LF.TWO[t[1]]
@@ -364,6 +379,7 @@ def _execute(case, res):
                 if any(id(r) in m.orphan for r in m.refs(tree, [])):
                     continue
                 mags = []
+                m.unstable = []
                 exp = m.evaluate(d, tree, view, mags)
                 got = d[c, view] if view is not None else d[c]
                 tshape = np.empty(d.shape)[view].shape if view is not None else d.shape
@@ -371,6 +387,12 @@ def _execute(case, res):
                 scale = np.zeros(tshape)
                 for mg in mags:
                     scale = np.maximum(scale, np.broadcast_to(mg, tshape))
+                skip = np.zeros(tshape, dtype=bool)
+                for u in m.unstable:
+                    skip |= np.broadcast_to(u, tshape)
+                if skip.any():
+                    res.probe('ill_conditioned_elements_skipped')
+                    got = np.where(skip, full, np.asarray(got, dtype=float))
                 res.nchecks += 1
                 res.nontrivial = True
                 if view is not None:
